@@ -27,7 +27,23 @@ struct RegistryWorld : World {
 		       "\"(type_traits.c is compiled into the harness unit unchanged so that its static tables can be reset between runs)\"],"
 		       "\"stub\":[\"allocator (ledger + n-th allocation fails)\",\"map id -> (kind, name, size, traits identity) and name -> id reference model\",\"table of C type sizes for the built-in ids\"]}";
 	}
-	RegistryWorld() { for (int i = 0; i < 64; ++i) g_traits_pool[i] = new type_traits(8 + (size_t) i, (i & 1) ? t_fini : 0, (i & 2) ? t_init : 0); }
+	std::string process_finding;
+	RegistryWorld() {
+		for (int i = 0; i < 64; ++i) g_traits_pool[i] = new type_traits(8 + (size_t) i, (i & 1) ? t_fini : 0, (i & 2) ? t_init : 0);
+		// once per process (the C++ layer keeps the answer in a function-local static, so no run can ask twice): the C++ "basic" metatype
+		// asks for the name "basic" and must end up with an id of its own in the metatype range even when the name is already taken
+		verif_registry_reset();
+		const named_traits *taken = mpt_type_interface_add("basic");
+		const named_traits *b = metatype::basic::pointer_traits(true);
+		char msg[200] = "";
+		if (taken && b) {
+			if (b == taken || b->type == taken->type) snprintf(msg, sizeof msg, "the C++ basic metatype shares id %x with the interface that already owned the name 'basic'", (unsigned) b->type);
+			else if (b->type < 0x100 || b->type > 0x7ff) snprintf(msg, sizeof msg, "the C++ basic metatype got id %x outside the metatype range", (unsigned) b->type);
+			else if (mpt_metatype_traits(b->type) != b) snprintf(msg, sizeof msg, "id %x of the C++ basic metatype does not resolve to its own entry", (unsigned) b->type);
+		}
+		process_finding = msg;
+		verif_registry_reset();
+	}
 	void gen(Rng &r, Plan &p, int tier) override {
 		int nops = (int) r.range(1, tier ? 150 : 60);
 		bool allocf = r.chance(1, 3);
@@ -101,6 +117,7 @@ struct RegistryWorld : World {
 		}
 	}
 	void exec(const Plan &p, Log &log, Stats &st) override {
+		if (!process_finding.empty()) fail("cxx-basic-id", "%s", process_finding.c_str());
 		{ Sut s; verif_registry_reset(); }
 		ledger_reset();
 		g.total_allocs = 0;
